@@ -136,20 +136,18 @@ def canon(v, depth=0):
 
 
 def atom_key(a):
-    """(table name, Z, A, q) of an atom, read without triggering any lazy load."""
+    """(table name, Z, A, q) of an atom.  Reads only the identifying attributes (never a lazy
+    name, so no load is triggered) and does not assume the atoms keep them in an instance
+    dictionary."""
     q = 0
-    d = a.__dict__
-    if "charge" in d and "element" in d and type(a).__name__ == "Ion":
-        q = d["charge"]
-        a = d["element"]
-        d = a.__dict__
     A = 0
+    if type(a).__name__ == "Ion":
+        q = a.charge
+        a = a.element
     if type(a).__name__ == "Isotope":
-        A = d["isotope"]
-        a = d["element"]
-        d = a.__dict__
-    tbl = d.get("table", type(a).table)
-    return (tbl, _py(d.get("number")), _py(A), _py(q))
+        A = a.isotope
+        a = a.element
+    return (a.table, _py(a.number), _py(A), _py(q))
 
 
 def _py(x):
@@ -170,7 +168,7 @@ def canon_atom(a):
 
 def table_name_of(t):
     try:
-        return t[1].__dict__.get("table", type(t[1]).table)
+        return t[1].table
     except Exception:  # noqa: BLE001
         return "?"
 
